@@ -187,6 +187,7 @@ type frec struct {
 	jpMark      int
 	effects     []uint64         // program effects performed by this frame itself
 	touches     []common.Address // accounts addressed by frames below this one that succeeded (they share this frame's fate)
+	nonceBumps  []common.Address // creators whose nonce a CREATE issued by this frame (or by a frame below that succeeded) incremented
 	failedErr   error
 	// specification material (C05 C06 C08)
 	nodeIdx     int // call-tree index of the node this frame pushed (-1: none)
@@ -224,9 +225,10 @@ type frameLogger struct {
 	transfers  []transferRec
 	tIdx       int
 	allEffects []uint64
-	failedEffs map[uint64]bool         // effects performed inside a frame that later failed (or inside its descendants)
-	keptEffs   map[uint64]bool         // effects of frames that succeeded all the way up
-	keptTouch  map[common.Address]bool // accounts addressed by a frame that succeeded all the way up
+	failedEffs map[uint64]bool           // effects performed inside a frame that later failed (or inside its descendants)
+	keptEffs   map[uint64]bool           // effects of frames that succeeded all the way up
+	keptTouch  map[common.Address]bool   // accounts addressed by a frame that succeeded all the way up
+	keptNonce  map[common.Address]uint64 // nonce increments made by creations whose issuing frame succeeded all the way up (or had none)
 	desync     string
 	journaled  map[string]bool
 	accounts   map[common.Address]bool
@@ -285,6 +287,27 @@ func (l *frameLogger) factsFor(a *attempt) {
 
 func (l *frameLogger) emitEnter(a *attempt, gas uint64, accepted bool, fr *frec, exitOut []byte, exitGasUsed uint64, exitErr error) {
 	m := a.facts
+	if a.kind == "create" || a.kind == "create2" {
+		// the creator's nonce is incremented once the depth, balance and nonce-overflow checks have passed - before the collision
+		// check and before the snapshot: it belongs to the frame that issued the creation, not to the creation
+		var issuing *frec
+		open := len(l.stack)
+		if fr != nil {
+			open-- // fr itself is the creation's frame
+			if len(l.stack) >= 2 {
+				issuing = l.stack[len(l.stack)-2]
+			}
+		} else {
+			issuing = l.top()
+		}
+		if (accepted || (m["ct"] == "1" && m["no"] == "0" && open <= 1024)) && m["no"] != "1" {
+			if issuing == nil {
+				l.keptNonce[a.caller]++
+			} else {
+				issuing.nonceBumps = append(issuing.nonceBumps, a.caller)
+			}
+		}
+	}
 	if accepted {
 		// value transfer observed by the wrapping Transfer
 		if (a.kind == "call" || a.kind == "create" || a.kind == "create2") && l.tIdx < len(l.transfers) {
@@ -555,7 +578,11 @@ func (l *frameLogger) exitFrame(output []byte, gasUsed uint64, err error) {
 	} else if p := l.top(); p != nil {
 		p.effects = append(p.effects, fr.effects...) // they now share the parent's fate
 		p.touches = append(append(p.touches, fr.touches...), fr.att.to)
+		p.nonceBumps = append(p.nonceBumps, fr.nonceBumps...)
 	} else {
+		for _, a := range fr.nonceBumps {
+			l.keptNonce[a]++
+		}
 		for _, id := range fr.effects {
 			l.keptEffs[id] = true
 		}
@@ -1004,6 +1031,10 @@ func (t *teeLogger) CaptureAspectExit(jp atypes.JoinPointRunType, res *atypes.As
 
 // ---------------------------------------------------------------- one case
 
+// deepCases: whether this case may be the depth-limit case (a self-calling contract down to the 1025th invocation: ~50 000 lines for
+// the model to replay; a run of thousands of cases keeps them to its first 150)
+var deepCases = true
+
 func runFrameCase(r *Rng, em *Emitter, label string, tags string) {
 	g := &fgen{r: r, codes: map[common.Address][]byte{}, blobs: map[common.Address][]byte{}, aspects: map[common.Address]*aspectScript{}}
 	fork := []string{"Byzantium", "Istanbul", "Berlin", "London", "Shanghai", "Cancun", "Homestead"}[r.Intn(7)]
@@ -1018,7 +1049,7 @@ func runFrameCase(r *Rng, em *Emitter, label string, tags string) {
 	if r.Chance(50) {
 		g.aspects[root] = &aspectScript{pre: g.outcome(), post: g.outcome()}
 	}
-	if r.Chance(3) {
+	if r.Chance(3) && deepCases {
 		// the depth limit: under Homestead rules (all gas may be forwarded) a contract that calls itself until the 1025th
 		// invocation is refused; every level then makes one more call of another kind, which is refused as well
 		fork = "Homestead"
@@ -1048,7 +1079,7 @@ func runFrameCase(r *Rng, em *Emitter, label string, tags string) {
 	}
 
 	sdb := newStateDB()
-	lg := &frameLogger{db: sdb, failedEffs: map[uint64]bool{}, keptEffs: map[uint64]bool{}, keptTouch: map[common.Address]bool{}, journaled: map[string]bool{}, accounts: map[common.Address]bool{}, expAttr: map[string]map[uint64][][]byte{}}
+	lg := &frameLogger{db: sdb, failedEffs: map[uint64]bool{}, keptEffs: map[uint64]bool{}, keptTouch: map[common.Address]bool{}, keptNonce: map[common.Address]uint64{}, journaled: map[string]bool{}, accounts: map[common.Address]bool{}, expAttr: map[string]map[uint64][][]byte{}}
 	transfer := func(db vm.StateDB, from, to common.Address, amount *big.Int) {
 		t := transferRec{from: from, to: to, amount: new(big.Int).Set(amount), bf: new(big.Int).Set(db.GetBalance(from)), bt: new(big.Int).Set(db.GetBalance(to))}
 		doTransfer(db, from, to, amount)
@@ -1077,6 +1108,7 @@ func runFrameCase(r *Rng, em *Emitter, label string, tags string) {
 	fi := forkIndex(fork)
 	lg.rules = map[string]string{"e158": b01(fi >= 3), "hs": b01(fi >= 1), "ber": b01(fi >= 8), "lon": b01(fi >= 9)}
 	initialBal := map[common.Address]*big.Int{callerAddr: big.NewInt(1_000_000)}
+	initialNonce := map[common.Address]uint64{}
 	codeAddrs := make([]common.Address, 0, len(g.codes))
 	for a := range g.codes {
 		codeAddrs = append(codeAddrs, a)
@@ -1090,6 +1122,7 @@ func runFrameCase(r *Rng, em *Emitter, label string, tags string) {
 		initialBal[a] = big.NewInt(1000)
 		if r.Chance(4) {
 			sdb.SetNonce(a, ^uint64(0)) // a creator whose nonce cannot be incremented: its CREATEs are refused up front
+			initialNonce[a] = ^uint64(0)
 		}
 	}
 	for _, a := range g.eoas {
@@ -1410,6 +1443,17 @@ func runFrameCase(r *Rng, em *Emitter, label string, tags string) {
 			va = "existed_empty_before_the_transaction_and_is_gone_although_no_frame_addressed_to_it_succeeded:" + listStr(gone)
 		}
 		em.Op("C04", "S atomic-accounts", va)
+		// the nonce of an account that issues a creation is spent whatever becomes of the creation (an effect of the issuing
+		// frame, made before the creation's frame exists), and is restored only with the issuing frame
+		vn := "ok"
+		for _, a := range append(append([]common.Address{}, codeAddrs...), callerAddr) {
+			want := initialNonce[a] + lg.keptNonce[a]
+			if got := sdb.GetNonce(a); got != want {
+				vn = fmt.Sprintf("nonce_of_%s_is_%d_expected_%d_(%d_creations_issued_by_frames_that_succeeded)", hexAddr(a), got, want, lg.keptNonce[a])
+				break
+			}
+		}
+		em.Op("C04", "S atomic-nonces", vn)
 	}
 	em.Op("C07,C03", "S wf", checkTreeWF(env.evm.Tracer(), rounds, false))
 	em.Op("C05", "S jp", lg.specJoinPoints())
@@ -1481,6 +1525,7 @@ func driveFrame(seed uint64, n int, size int, em *Emitter) {
 	for i := 0; i < n; i++ {
 		cr := r.Fork()
 		replay := *cr
+		deepCases = i < 150
 		ce, first := captureEmitter()
 		runFrameCase(cr, ce, fmt.Sprintf("frame-%d-%d", seed, i), "*")
 		for _, l := range *first {
